@@ -28,10 +28,12 @@ if [ $clean_rc -eq 0 ] && [ $tests_rc -eq 0 ] && [ $mut_rc -ne 0 ]; then
 import json,sys
 p,x,summary=sys.argv[1:4]
 what=needs=""
-try:
-    for e in json.load(open("/tmp/wt/%s.summary.json"%p)):
-        if e.get("id")==x: what,needs=e.get("what",""),e.get("needs","")
-except Exception as ex: what="(summary unavailable: %s)"%ex
+import glob
+for f in glob.glob("/tmp/wt/%s.summary*.json"%p):
+    try:
+        for e in json.load(open(f)):
+            if e.get("id")==x: what,needs=e.get("what",""),e.get("needs","")
+    except Exception as ex: pass
 meta={"property":p,"id":"%s-%s"%(p,x),"what":what,"needs_to_manifest":needs,
  "confirmed":{"where":"scratch worktree of /repo HEAD under /tmp/wt (removed afterwards)",
    "existing_tests_with_change":"pass: "+summary,"demo_with_change":"fails (non-zero exit)","demo_without_change":"passes (exit 0)",
